@@ -303,6 +303,8 @@ func block(key string, ws []string, w int) []string {
 }
 
 // genGbRecord builds a random abstract record and lays it out with the harness's own writer
+var gbNameTick int
+
 // gbForce, when set, fixes the division, molecule type and topology of the next generated records
 var gbForce struct{ div, mol, topo string }
 
@@ -358,6 +360,13 @@ func genGbRecordN(rng *rand.Rand, fixedN, maxSeq, maxFeats int) (lines []string,
 	if rng.Intn(5) == 0 {
 		name = name[:1] + "b"
 		name = name[:2]
+	}
+	gbNameTick++
+	if gbNameTick%4 == 0 || gbForce.div != "" && gbNameTick%2 == 0 {
+		// names that contain or equal a word the other LOCUS columns use: topology words, the unit, molecule types
+		// and division codes (any case: C01 names lower-case locus names, C03 any record)
+		tricky := []string{"linear", "circular", "bp", "aa", "dna", "mrna", "PRIMER1", "pDNA1", "TEST01", "tRNA_Ala", "ROD", "sSYN9", "PLNx", "HTGS", "ENV_2", "mRNA", "DNA", "BCT"}
+		name = tricky[(gbNameTick/2)%len(tricky)]
 	}
 	want.Locus = gbLocus{name, fmt.Sprint(n), []string{"DNA", "mRNA", "tRNA", "rRNA"}[rng.Intn(4)], []string{"linear", "circular"}[rng.Intn(2)],
 		[]string{"PRI", "ROD", "MAM", "VRT", "INV", "PLN", "BCT", "VRL", "PHG", "SYN", "UNA", "EST", "PAT", "STS", "GSS", "HTG", "HTC", "ENV"}[rng.Intn(18)], fmt.Sprintf("%02d-%s-%d", 1+rng.Intn(28), []string{"JAN", "FEB", "MAR", "APR", "MAY", "JUN", "JUL", "AUG", "SEP", "OCT", "NOV", "DEC"}[rng.Intn(12)], 1990+rng.Intn(35))}
